@@ -284,8 +284,13 @@ func c02(args []string) error {
 			if err != nil {
 				return err
 			}
+			// a replica that was asked to verify a certificate before its membership was installed
+			early, err := hx.NewSecCluster(hx.SecOpts{N: n, Scheme: scheme, Keys: keys, Early: true})
+			if err != nil {
+				return err
+			}
 			w := hx.NewWorld(scheme, signers, n)
-			for _, s := range append(append([]*hx.Sec{}, plain...), cached...) {
+			for _, s := range append(append(append([]*hx.Sec{}, plain...), cached...), early...) {
 				s.BC.Store(w.Blocks["B1"])
 				s.BC.Store(w.Blocks["B2"])
 			}
@@ -293,7 +298,7 @@ func c02(args []string) error {
 				auth  *cert.Authority
 				cache bool
 			}
-			verifiers := []verifier{{plain[0].Auth, false}, {cached[n-1].Auth, true}}
+			verifiers := []verifier{{plain[0].Auth, false}, {cached[n-1].Auth, true}, {early[n/2].Auth, false}}
 			emitQC := func(mut string, honest bool, q hx.AbsQC) {
 				qc := w.MkQC(q)
 				for _, v := range verifiers {
